@@ -486,3 +486,28 @@ def comp_as_loop(fn_node, acc="hits__comp"):
             for c in ast.iter_child_nodes(n):
                 c._parent = n
     return out
+
+
+def reverse_slices_do_not_wrap(run, rule, fis):
+    """`x[i - c::-1]` starts at index -1 .. -c when i < c, i.e. at the END of x: every reverse slice whose start is `name - constant`
+    must sit under a condition that implies name >= constant."""
+    from .. import guards as G
+    n = 0
+    for fi in fis:
+        for sub in [x for x in ast.walk(fi.node) if isinstance(x, ast.Subscript) and isinstance(x.slice, ast.Slice)]:
+            sl = sub.slice
+            if not (isinstance(sl.step, ast.UnaryOp) and isinstance(sl.step.op, ast.USub) and isinstance(sl.step.operand, ast.Constant) and sl.step.operand.value == 1):
+                continue
+            n += 1
+            lo = sl.lower
+            ok, det = True, ""
+            if isinstance(lo, ast.BinOp) and isinstance(lo.op, ast.Sub) and isinstance(lo.right, ast.Constant) and isinstance(lo.right.value, int) and lo.right.value > 0:
+                az = G.Atomizer(is_int=lambda e: True)
+                st = enclosing_stmt(sub)
+                pc = G.reach(fi.node.body, st, az)
+                want = az.formula(ast.Compare(left=lo.left, ops=[ast.GtE()], comparators=[lo.right]))
+                ok = pc is not None and G.implies(pc, want)[0]
+                det = f"`{ast.unparse(sub)}` starts at index {ast.unparse(lo)}, which is negative (counted from the end) when {ast.unparse(lo.left)} < {lo.right.value}"
+            run.ob(rule, f"{fi.fq}/reverse-slice-start/{ast.unparse(lo) if lo is not None else 'end'}", ok, f"{fi.module.rel}:{sub.lineno}",
+                   "a backwards slice starts at a non-negative index (a negative start wraps to the end of the text)", det, mech="slice census + reaching condition")
+    return n
